@@ -108,6 +108,19 @@ uint8  g_ov;
 /* constant buffer size that holds NMAX elements at the largest stride of the run */
 #define FIXB ((size_t)MAXSTR * (NMAX - 1) + 8)
 
+#ifdef TIGHT
+/* allocations of exactly the spanned size (symbolic size: only affordable for very few elements) */
+#define DFK_BUFFERS                                                                                  \
+    H4V_ND_BUF(uint8, src, sbytes, FIXB);                                                            \
+    H4V_ND_BUF(uint8, dst, dbytes, FIXB)
+#else
+#define DFK_BUFFERS                                                                                  \
+    H4V_ND_BUF(uint8, sbase, FIXB, FIXB);                                                            \
+    H4V_ND_BUF(uint8, dbase, FIXB, FIXB);                                                            \
+    uint8 *src = sbase + (FIXB - sbytes);                                                            \
+    uint8 *dst = dbase + (FIXB - dbytes)
+#endif
+
 /* Environment for one call of FN (width W).  The buffers are constant-size allocations (symbolic
    allocation sizes are very slow once loops are unwound); the element range is END-ALIGNED in
    them, so that any access beyond the last byte spanned by the strides is out of bounds for every
@@ -120,10 +133,7 @@ uint8  g_ov;
     H4V_ASSUME(!in_place || source_stride == dest_stride);                                           \
     size_t sbytes = num_elm == 0 ? 1 : SEXT(W);                                                      \
     size_t dbytes = num_elm == 0 ? 1 : DEXT(W);                                                      \
-    H4V_ND_BUF(uint8, sbase, FIXB, FIXB);                                                            \
-    H4V_ND_BUF(uint8, dbase, FIXB, FIXB);                                                            \
-    uint8 *src = sbase + (FIXB - sbytes);                                                            \
-    uint8 *dst = dbase + (FIXB - dbytes);                                                            \
+    DFK_BUFFERS;                                                                                     \
     uint8 *d   = in_place ? src : dst;                                                               \
     H4V_HAVOC(uint32, g_k);                                                                          \
     H4V_HAVOC(size_t, g_o);                                                                          \
